@@ -63,6 +63,8 @@ func (x *c20SX) stmt(s ast.Stmt, st *c20St) []*c20St {
 		return x.ifStmt(s, st)
 	case *ast.SwitchStmt:
 		return x.switchStmt(s, st)
+	case *ast.TypeSwitchStmt:
+		return x.typeSwitchStmt(s, st)
 	case *ast.ReturnStmt:
 		return x.returnStmt(s, st)
 	case *ast.RangeStmt:
@@ -72,6 +74,9 @@ func (x *c20SX) stmt(s ast.Stmt, st *c20St) []*c20St {
 		// a request or a call into the package.
 		if why := x.opaqueOrLocalCallIn(s.Call); why != "" {
 			return []*c20St{st.abort(s, "deferred %s", why)}
+		}
+		if why := c20AssignsIn(s.Call); why != "" {
+			return []*c20St{st.abort(s, "deferred closure %s (it could change what the returned pointers refer to)", why)}
 		}
 		return []*c20St{st}
 	case *ast.BranchStmt:
@@ -136,6 +141,7 @@ func (x *c20SX) declStmt(s *ast.DeclStmt, st *c20St) []*c20St {
 			if len(vs.Values) == 0 {
 				for _, nm := range vs.Names {
 					if o := x.info.Defs[nm]; o != nil {
+						x.born(o)
 						c.env[o] = x.zero(o.Type())
 					}
 				}
@@ -229,14 +235,14 @@ func (x *c20SX) returnStmt(s *ast.ReturnStmt, st *c20St) []*c20St {
 			if len(vs) == 1 && vs[0].k == c20kTuple {
 				vs = vs[0].vs
 			}
-			if want := c20Sig(x.stack[len(x.stack)-1]).Results().Len(); len(vs) == 1 && want > 1 && vs[0].k == c20kUnknown {
+			if want := x.frame().sig.Results().Len(); len(vs) == 1 && want > 1 && vs[0].k == c20kUnknown {
 				u := vs[0]
 				vs = nil
 				for i := 0; i < want; i++ {
 					vs = append(vs, u)
 				}
 			}
-			if want := c20Sig(x.stack[len(x.stack)-1]).Results().Len(); len(vs) != want {
+			if want := x.frame().sig.Results().Len(); len(vs) != want {
 				it.st.abort(s, "`%s` yields %d value(s) for %d result(s)", x.srcOf(s), len(vs), want)
 				out = append(out, it.st)
 				continue
@@ -361,4 +367,21 @@ func (x *c20SX) switchStmt(s *ast.SwitchStmt, st *c20St) []*c20St {
 		}
 	}
 	return out
+}
+
+// c20AssignsIn reports an assignment or ++/-- inside n (a deferred closure must only release resources).
+func c20AssignsIn(n ast.Node) string {
+	why := ""
+	ast.Inspect(n, func(m ast.Node) bool {
+		switch a := m.(type) {
+		case *ast.AssignStmt:
+			if a.Tok != token.DEFINE {
+				why = "assigns"
+			}
+		case *ast.IncDecStmt:
+			why = "assigns"
+		}
+		return why == ""
+	})
+	return why
 }
